@@ -72,9 +72,17 @@ def r13a(ck, prog):
     ck.floor("R13a", n, 6, "histogram writers")
 
 
+_FEVAL_FN = [None]
+
+
 def feval(n):
-    """constant floating expression -> float or None"""
+    """constant floating expression -> float or None (locals with a single constant definition are followed)"""
     n = n.strip(casts=True)
+    if n.k == "DeclRefExpr" and n.d.get("dk") == "Var" and not n.d.get("g") and _FEVAL_FN[0] is not None:
+        defs = local_defs(_FEVAL_FN[0], n.d["did"])
+        if len(defs) == 1 and defs[0][0] is not None:
+            return feval(defs[0][0])
+        return None
     if n.k == "FloatingLiteral" or n.k == "IntegerLiteral":
         return float(n.d["v"])
     if n.cv is not None:
@@ -100,6 +108,7 @@ def feval(n):
 
 def models(prog, F):
     """{table did: dict(name, default, literal did, literal text, value, weights[128])}"""
+    _FEVAL_FN[0] = F
     lits = {}
     for s in F.body.find("DeclStmt"):
         for dd in s.d["decls"]:
